@@ -1,4 +1,5 @@
-import c01
+import os, time
+import c01, vf, w32
 
 
 class Property(c01.Property):
@@ -7,9 +8,61 @@ class Property(c01.Property):
     coq_targets = ["theories/Properties/C11.vo"]
     theorems = []
     assumptions = [
-        "on the 64-bit host the inline limit is 2^46-1, so the sentinel branch (inline == limit -> ask the length query) of Value::as_string/array_len/obj_len is exercised by the model at W=32 (theorems C11_api_len, C11_inline) and against the real crates only under Miri/i686 (thorough tier, when its sysroot is available)",
+        "on the 64-bit host the inline limit is 2^46-1, so the sentinel branch (inline == limit -> ask the length query) of Value::as_string/array_len/obj_len is exercised by the model at W=32 (theorems C11_api_len, C11_inline) and against the REAL crates built for a 32-bit target under Miri/i686 on every run (lib/w32.py: 15 documents with sizes 2^14-2 .. 2^14+1 through every access path, compared with an independent eager decode and, where the list-based model is fast enough, with the model at W=32)",
         "api::Value values are built from raw NaN-boxed answers by a same-size transmute in the harness",
     ]
+
+    def correspond(self, tier, seed):
+        r = super().correspond(tier, seed)
+        t0 = time.time()
+        cases = w32.c11_cases(tier == "thorough")
+        jobs = [(w32.enc(tree), ops) for _, tree, ops, _ in cases]
+        obs = w32.run_reader(jobs)
+        n, sentinel = 0, 0
+        for k, ((name, tree, ops, small), o) in enumerate(zip(cases, obs)):
+            want = w32.oracle(tree, ops)
+            n += len(ops)
+            sentinel += sum(1 for x in o if x.startswith("ALEN ") and x != "ALEN NONE")
+            block = [f"CASE {900000 + k} 32 c11-w32 {name}", "DOC " + jobs[k][0].hex()] + ops + ["END"]
+            if o != want:
+                j = next((i for i in range(min(len(o), len(want))) if o[i] != want[i]), min(len(o), len(want)))
+                got = o[j] if j < len(o) else (obs[-1][0] if obs and obs[-1] and obs[-1][0].startswith("STDERR") else "(no answer: the 32-bit run stopped)")
+                r["property_failures"].append({"case": block, "impl": o, "model": [], "spec": want, "w32": True,
+                    "why": f"32-bit build (Miri/i686), document {name}: call {j} `{ops[j] if j < len(ops) else '?'}` answered `{got[:160]}`, the true answer is `{want[j][:160] if j < len(want) else '?'}`"})
+        # the model at W=32 on the documents it can run in reasonable time (strings, long keys)
+        d = vf.run_dir(self.prop, "-w32")
+        small_idx = [k for k, c in enumerate(cases) if c[3]]
+        with open(os.path.join(d, "cases.txt"), "w") as f:
+            for k in small_idx:
+                f.write(f"CASE {k} 32 c11\nDOC {jobs[k][0].hex()}\n" + "\n".join(cases[k][2]) + "\nEND\n")
+        vf.run_driver(vf.build_driver(), "c11", d)
+        mlines, _ = vf.split_model(vf.read_lines(os.path.join(d, "model.txt")))
+        model = vf.group_by_case(mlines)
+        for k in small_idx:
+            M = [l.split(" ", 1)[1] for l in model.get(str(k), [])]
+            if M != obs[k]:
+                j = next((i for i in range(min(len(M), len(obs[k]))) if M[i] != obs[k][i]), min(len(M), len(obs[k])))
+                r["model_mismatches"].append({"case": [f"CASE {k} 32 c11", "DOC " + jobs[k][0].hex()] + cases[k][2] + ["END"], "impl": obs[k], "model": M, "spec": [],
+                    "why": f"W=32 model vs 32-bit build: first difference at observation {j}"})
+        st = r["stats"]
+        st["evaluations"] = st.get("evaluations", 0) + n
+        st["w32_cases"] = len(cases); st["w32_observations"] = n; st["w32_accessor_lengths_at_or_above_limit"] = sentinel
+        st["w32_wall_s"] = round(time.time() - t0, 1)
+        st["w32_rule"] = "the real api+provider+core crates built for i686 (pointer width 32, inline limit 2^14-1) under Miri: strings, object keys, arrays and objects of 2^14-2 .. 2^14+1 bytes/elements/entries at the root and nested, by name, by index and key-at-index, through the raw provider calls and the api::Value accessors; every answer compared with an independent eager decode (true lengths; inline = min(n, 2^14-1)) and, for the string/key documents, with the Coq model at W=32"
+        return r
+
+    def replay(self, body):
+        if body.get("w32"):
+            ops = [l for l in body["case"][2:] if l != "END"]
+            doc = bytes.fromhex(body["case"][1].split()[1])
+            o = w32.run_reader([(doc, ops)])[0]
+            if o != body["spec"]:
+                print("still fails (32-bit build):", o[:6], "expected", body["spec"][:6]); return True
+            return False
+        return super().replay(body)
+
+    def minimise(self, d):
+        return d if d.get("w32") else super().minimise(d)
 
     def property_failure(self, block, I, S, M):
         why = super().property_failure(block, I, S, M)
